@@ -76,6 +76,12 @@ def closures(ctx, db):
                     for k, x in lamdefs.items():
                         if (x.get('use') or '').startswith('init:') and re.search(r'decltype\(%s\)' % re.escape((x.get('use') or '')[5:]), t):
                             dl = db.get(k)
+                if dl is None:
+                    # a named deleter class: unique_ptr<X, cocls::...::deleter>
+                    m2 = re.search(r'unique_ptr<[^,]+,\s*(?:struct |class )?([\w:]+(?:<[^<>]*>)?(?:::\w+)*)\s*>', c.get('canon_type') or c.get('type') or '')
+                    if m2 and 'lambda' not in m2.group(1):
+                        dfs = db.fns(norm(m2.group(1)) + '::operator()')
+                        dl = dfs[0] if dfs else None
                 if dl is not None:
                     fns, ext, _ = reach(db, [dl])
                     if any(g['nname'] in ('cocls::coro_queue::resume', 'cocls::awaiter::resume') for g in fns):
@@ -89,8 +95,8 @@ def closures(ctx, db):
                    desc='closure in %s captures waiter %s without owning it' % (norm(f['nname'])[:60], c.get('name')))
         # body: unique_ptr guards released once and resumed once
         lf = db.get(e['fn_key'])
-        if lf is not None and any('unique_ptr' in (c.get('type') or '') for c in e.get('captures', [])):
-            trs = [t for t in T.traces(lf) if live(t)]
+        if lf is not None and any('unique_ptr' in (c.get('type') or '') + (c.get('canon_type') or '') for c in e.get('captures', [])):
+            trs = [t for t in htracer(db).traces(lf) if live(t)]
             ctx.paths(rid2, len(trs))
             bad = None
             for tr in trs:
@@ -150,7 +156,7 @@ def resume_all(ctx, db):
     fns = [f for f in db.fns('cocls::thread_pool::resume') if any('&&' not in p['type'] for p in f['params'])]
     if not fns:
         raise Broken('anchor vanished: thread_pool::resume(suspend_point&)')
-    T = Tracer(db, depth=0, maxvisit=3)
+    T = htracer(db, maxvisit=3)
     seen = set()
     for f in fns:
         if not has_back_edge(f):
@@ -168,7 +174,7 @@ def resume_all(ctx, db):
                 bad = bad or ('the loop can exit while the suspend point is not known to be empty (remaining coroutines run on the caller\'s thread)', tr)
             for a, (j, br) in enumerate(loops[:-1]):
                 seg = tr[j:loops[a + 1][0]]
-                pops = [x for x in seg if x.k == 'call' and norm(x.get('callee')) == 'cocls::suspend_point::pop']
+                pops = [x for x in seg if x.k == 'call' and norm(x.get('callee')) == 'cocls::suspend_point::pop' and norm(x.get('fname') or '').startswith('cocls::thread_pool')]
                 enq = [x for x in seg if x.k == 'call' and norm(x.get('callee')) in ('cocls::thread_pool::enqueue', 'cocls::thread_pool::run_detached')]
                 if len(pops) != 1 or len(enq) != 1:
                     bad = bad or ('an iteration pops %d and enqueues %d' % (len(pops), len(enq)), tr)
@@ -179,44 +185,43 @@ def resume_all(ctx, db):
 
 
 def stop(ctx, db):
-    rid = ctx.rule('C11.stop', 'LOCKSET+COUNT', 'thread_pool::stop: the exit flag is set and all workers are notified while the lock is held; no join() while the lock is held; each thread is '
-                   'joined on the edge where it is not the calling thread and detached (with the current-pool marker reset) otherwise; the tasks swapped out of the queue are '
-                   'destroyed - which runs their cancellation code - after the lock has been released', floor=1)
-    la = locks.LockAnalysis(db, GUARDED)
+    rid = ctx.rule('C11.stop', 'LOCKSET+COUNT', 'thread_pool::stop (helpers of the class expanded in place): on every path the exit flag is set to true exactly once and all workers are notified '
+                   'while the lock is held; no join() while the lock is held; each thread is joined on the edge where it is not the calling thread and detached (with the current-pool marker '
+                   'reset, and only there) otherwise; the tasks swapped out of the queue are a local of stop() that is destroyed - which runs their cancellation code - after the lock has been released', floor=1)
+    Qf = 'cocls::thread_pool::_queue'
     for f, trs in traces_of(db, 'cocls::thread_pool::stop', depth=0, per_instance=False, maxvisit=2):
-        held = la.held_map(f)
         trs = [t for t in trs if live(t)]
         ctx.paths(rid, len(trs))
         bad = None
-        evl = list(f.events())
-        w = [e for e in evl if e.k == 'write' and field_of(e) == 'cocls::thread_pool::_exit']
-        if len(w) != 1 or w[0].get('const') != 1 or not held.get(w[0]['id']):
-            bad = bad or ('the exit flag is not set to true exactly once under the lock', [])
-        ntf = [e for e in evl if e.k == 'call' and norm(e.get('callee')) == 'std::condition_variable::notify_all']
-        if not ntf or not all(held.get(e['id']) for e in ntf):
-            bad = bad or ('workers are not all notified under the lock (notify_one / outside the lock loses sleeping workers)', [])
-        for e in evl:
-            if e.k == 'call' and norm(e.get('callee')) in ('std::thread::join',) and held.get(e['id']):
-                bad = bad or ('join() while holding the pool mutex: the worker needs it to leave its loop', [])
-        # the swapped-out queue
-        sw = [e for e in evl if e.k == 'call' and norm(e.get('callee')) == 'std::swap' and any(norm(a.get('field') or '') == 'cocls::thread_pool::_queue' for a in e.get('args', []))]
-        if len(sw) != 1:
-            bad = bad or ('the pending tasks are not swapped out of the queue', [])
-        else:
-            loc = next((a.get('path') for a in sw[0]['args'] if (a.get('path') or '').startswith('local:')), None)
-            if not held.get(sw[0]['id']):
-                bad = bad or ('the queue is swapped out without the lock', [])
-            d = [e for e in evl if e.k == 'dtor' and loc and e.get('var') == loc.split(':')[1]]
-            if not d:
-                bad = bad or ('the swapped-out tasks are not a local of stop()', [])
-            elif any(held.get(e['id']) for e in d):
-                bad = bad or ('the swapped-out tasks are destroyed while the pool mutex is held (their cancellation code may call back into the pool)', [])
         for tr in trs:
+            ls = trace_lockset(tr)
+            w = [i for i, it in enumerate(tr) if it.k == 'write' and field_of(it) == 'cocls::thread_pool::_exit']
+            if len(w) != 1 or tr[w[0]].get('const') != 1 or not ls[w[0]]:
+                bad = bad or ('the exit flag is not set to true exactly once under the lock', tr)
+            ntf = [i for i, it in enumerate(tr) if it.k == 'call' and norm(it.get('callee')) == 'std::condition_variable::notify_all']
+            if not ntf or not all(ls[i] for i in ntf) or (w and ntf[0] < w[0]):
+                bad = bad or ('workers are not all notified under the lock after the flag was set (notify_one / outside the lock loses sleeping workers)', tr)
+            for i, it in enumerate(tr):
+                if it.k == 'call' and norm(it.get('callee')) == 'std::thread::join' and ls[i]:
+                    bad = bad or ('join() while holding the pool mutex: the worker needs it to leave its loop', tr)
+            # the swapped-out queue
+            sw = [i for i, it in enumerate(tr) if it.k == 'call' and norm(it.get('callee')) == 'std::swap' and any(norm(a.get('field') or '') == Qf for a in it.get('args', []))]
+            if len(sw) != 1:
+                bad = bad or ('the pending tasks are not swapped out of the queue exactly once', tr)
+            else:
+                loc = next((a.get('path') for a in tr[sw[0]]['args'] if re.fullmatch(r'local:\w+', a.get('path') or '')), None)
+                if not ls[sw[0]]:
+                    bad = bad or ('the queue is swapped out without the lock', tr)
+                d = [i for i, it in enumerate(tr) if it.k == 'dtor' and loc and it.get('var') == loc.split(':')[1] and it.get('depth', 0) == 0]
+                if not d:
+                    bad = bad or ('the swapped-out tasks are not a local of stop()', tr)
+                elif any(ls[i] for i in d):
+                    bad = bad or ('the swapped-out tasks are destroyed while the pool mutex is held (their cancellation code may call back into the pool)', tr)
             for i, it in enumerate(tr):
                 if it.k == 'call' and norm(it.get('callee')) in ('std::thread::join', 'std::thread::detach'):
                     same = None
                     for b in reversed(tr[:i]):
-                        if b.k == 'branch' and 'get_id' in (b.path or '') or (b.k == 'branch' and 'operator==' in (b.path or '')):
+                        if b.k == 'branch' and ('get_id' in (b.path or '') or 'operator==' in (b.path or '')):
                             same = bool(b.val) if '!=' not in (b.path or '') else (not b.val)
                             break
                     if norm(it.get('callee')) == 'std::thread::join' and same is not False:
@@ -238,13 +243,12 @@ def stop(ctx, db):
 def worker(ctx, db):
     rid = ctx.rule('C11.worker', 'LOCKSET+ORDER', 'thread_pool::worker: after every wait the exit flag is tested before a task is taken; the task is removed from the queue before it is run; '
                    'the lock is released while the task runs and re-taken afterwards', floor=1)
-    la = locks.LockAnalysis(db, GUARDED)
     for f, trs in traces_of(db, 'cocls::thread_pool::worker', depth=0, per_instance=False, maxvisit=2):
-        held = la.held_map(f)
         trs = [t for t in trs]
         ctx.paths(rid, len(trs))
         bad = None
         for tr in trs:
+            ls = trace_lockset(tr)
             for i, it in enumerate(tr):
                 if it.k == 'call' and norm(it.get('field') or '') == 'cocls::thread_pool::_queue' and norm(it.get('callee')).split('::')[-1] == 'front':
                     seg = []
@@ -252,10 +256,10 @@ def worker(ctx, db):
                         if b.k == 'call' and norm(b.get('callee') or '').startswith('std::condition_variable::wait'):
                             break
                         seg.append(b)
-                    if not any(b.k == 'branch' and (b.path or '') == 'this->_exit' and b.val is False for b in seg):
+                    if not any(b.k == 'branch' and nullness(b) and nullness(b)[0] == 'this->_exit' and nullness(b)[1] is False for b in seg):
                         bad = bad or ('a task is taken after a wait without re-checking the exit flag', tr)
                 if it.k == 'call' and (it.get('recv') or '').startswith('local:') and norm(it.get('callee') or '').endswith('operator()') and 'function' in norm(it.get('callee') or ''):
-                    if held.get(it.get('id')):
+                    if ls[i]:
                         bad = bad or ('a task runs while the pool mutex is held', tr)
                     if not any(x.k == 'call' and norm(x.get('field') or '') == 'cocls::thread_pool::_queue' and norm(x.get('callee')).split('::')[-1] == 'pop' for x in tr[:i]):
                         bad = bad or ('a task runs before it was removed from the queue (it would run twice)', tr)
@@ -298,17 +302,31 @@ def await_resume(ctx, db):
         if not bad and (nthrow == 0 or nok == 0):
             bad = ('await_resume lost its outcomes', [])
         ctx.ob(rid, f, f['key'], bad is None, 'throws iff cancelled' + ('' if not bad else ' -- ' + bad[0]), desc=bad[0] if bad else None)
+    # the closure that runs on a worker (the one handed to enqueue): on every path the awaiter's handle is cleared before the coroutine is resumed
+    H = htracer(db)
+    enq = {e['fn_key'] for _, e in _enqueued_lambdas(db)}
+    n = 0
     for lf in lambdas_of(db, 'cocls::thread_pool::co_awaiter::await_suspend'):
-        if not any(e.k == 'call' and norm(e.get('callee')) == 'cocls::coro_queue::resume' for e in lf.events()) or not lf.get('parent_key'):
-            continue
-        evl = list(lf.events())
-        w = next((i for i, e in enumerate(evl) if (e.k == 'write' and (e.get('path') or '').endswith('->_h')) or (e.k == 'call' and norm(e.get('callee') or '').endswith('operator=') and (e.get('recv') or '').endswith('->_h'))), -1)
-        r = next((i for i, e in enumerate(evl) if e.k == 'call' and norm(e.get('callee')) == 'cocls::coro_queue::resume'), -1)
-        if any('unique_ptr<co_awaiter' in (p.get('type') or '') for p in []) or 'fin' in str(lf.get('inst')):
-            pass
-        if r >= 0 and not any(e.k == 'call' and norm(e.get('callee')) == 'std::unique_ptr::release' for e in evl):
-            continue      # the deleter lambda itself
-        ctx.ob(rid, lf, lf['key'], 0 <= w < r, 'the closure clears the awaiter\'s handle before resuming on the worker', desc='closure resumes before clearing the cancelled marker')
+        if lf['key'] not in enq:
+            continue          # the deleter lambda / other helpers
+        n += 1
+        bad = None
+        trs = [t for t in H.traces(lf) if live(t)]
+        ctx.paths(rid, len(trs))
+        for tr in trs:
+            def clears(e):
+                if e.k == 'write' and (e.get('path') or '').endswith('->_h') and (e.get('const') == 0 or (e.get('rhs') or '') in NULLS):
+                    return True
+                if e.k == 'call' and norm(e.get('callee') or '').endswith('operator=') and (e.get('recv') or '').endswith('->_h') and ((e.get('args') or [{}])[0].get('path') or '') in NULLS:
+                    return True
+                return e.k == 'call' and norm(e.get('callee') or '') == 'std::exchange' and ((e.get('args') or [{}])[0].get('path') or '').endswith('->_h') and len(e['args']) > 1 and (e['args'][1].get('path') or '') in NULLS
+            w = index_of(tr, clears)
+            r = index_of(tr, callee_is('cocls::coro_queue::resume'))
+            if r < 0 or not (0 <= w < r):
+                bad = bad or tr
+        ctx.ob(rid, lf, lf['key'], bad is None and bool(trs), 'the closure clears the awaiter\'s handle before resuming on the worker', desc='closure resumes before clearing the cancelled marker', trace=fmt_trace(bad) if bad else None)
+    if n == 0:
+        raise Broken('the closure enqueued by thread_pool::co_awaiter::await_suspend was not found')
 
 
 def run_resolves_once(ctx, db):
@@ -317,22 +335,26 @@ def run_resolves_once(ctx, db):
                    'future pending)', floor=1)
     PROM = ('cocls::promise::operator()', 'cocls::promise::set_value', 'cocls::promise::set_exception')
     cands = []
+    H = htracer(db)
     for f in db.all_instances():
-        if f.get('lambda') and f['nname'].startswith('cocls::thread_pool::run') and any(e.k == 'call' and norm(e.get('callee')) in PROM for e in f.events()) \
-                and any(e.k == 'call' and norm(e.get('callee') or '') == 'std::get' for e in f.events()):
-            cands.append(f)
+        if f.get('lambda') and f['nname'].startswith('cocls::thread_pool::run') and any(e.k == 'call' and norm(e.get('callee') or '') == 'std::get' for e in f.events()):
+            # the closure that calls the user function (std::get<0>(fn)) and - itself or through a helper of the pool - resolves the promise
+            if any(e.k == 'call' and norm(e.get('callee')) in PROM for e in f.events()) or any(it.k == 'call' and norm(it.get('callee')) in PROM for tr in H.traces(f) for it in tr):
+                cands.append(f)
     if not cands:
         raise Broken('closure of thread_pool::run(fn) not found')
 
     def may_throw(ev):
         return ev.k == 'call' and not ev.get('nothrow') and norm(ev.get('callee') or '') not in PROM + ('std::get', 'std::move', 'std::forward') and ev.get('try') is not None
-    T = Tracer(db, depth=0, exc_edges=may_throw)
+    T = htracer(db, exc=may_throw)
     seen_bad = None
     for f in cands:
-        if not any((b.get('label') or {}).get('kind') == 'catch' and b['label'].get('type') == '...' for b in f['blocks']):
+        trs_ = T.traces(f)
+        bodies = {f['key']} | {it.get('fn') for tr in trs_ for it in tr if it.get('fn')}
+        if not any((b.get('label') or {}).get('kind') == 'catch' and b['label'].get('type') == '...' for k_ in bodies for g in [db.get(k_)] if g is not None for b in g['blocks']):
             seen_bad = seen_bad or (f, 'no catch(...) in the task closure'); continue
         nexc = 0
-        for tr in T.traces(f):
+        for tr in trs_:
             if not live(tr):
                 continue
             pc = [c for c in calls(tr) if norm(c.get('callee')) in PROM]
